@@ -31,6 +31,14 @@ def _job(args):
                               next_jobs=nxt, corrupt_open=copen)
 
 
+def _tcp_job(args):
+    from . import serial_rec
+    from .common import set_logging
+    set_logging(False)
+    lines, holds, pauses, nxt = args
+    return serial_rec.run_job(lines, corrupt=(), holds={int(k): v for k, v in holds.items()}, pauses=pauses, next_jobs=nxt, mode="socket")
+
+
 def run_jobs(specs, par=12):
     return flow.pool_map(_job, specs, par, per_task=40)
 
@@ -223,7 +231,64 @@ class P(flow.Plan):
                "drift_count": tot - acc, "drift_notes": [{"trace": i, "schedule": inputs[i]} for i in rej[:3]]}
         out.update(self.job_life_cycle())
         out.update(self.layer_table())
+        out.update(self.tcp_streaming())
         return out
+
+    def tcp_streaming(self):
+        """Beyond C15 (which speaks of a serial link): the same jobs streamed over a TCP connection (SenderTcpTrace)."""
+        import copy as _c
+        import os
+        from .common import workdir, write_json
+        tier, sd = getattr(self, "_tier", "quick"), getattr(self, "_sd", 1)
+        n = 80 if tier == "thorough" else 16
+        specs = []
+        for i in range(n):
+            rng = random.Random(sd * 3331 + i)
+            k = rng.randint(1, 8)
+            lines = job_lines(rng, k) if i % 3 else layered_job(rng, rng.randint(4, 12))
+            holds = {j: rng.randint(0, k + 3) for j in range(2 * k + 6) if rng.random() < 0.25}
+            pauses = sorted(rng.sample(range(1, k + 2), 1)) if i % 4 == 0 and k >= 2 else []
+            nxt = [job_lines(rng, rng.randint(1, 4))] if i % 5 == 2 and not pauses else []
+            specs.append((lines, holds, pauses, nxt))
+        trs = flow.pool_map(_tcp_job, specs, 8, per_task=40)
+
+        def judge(ts, tag):
+            path = os.path.join(workdir(), "%s.json" % tag)
+            write_json(path, [{"job": t["job"], "ev": [{"k": e["k"], "text": e["text"], "joined": e["joined"], "job": e["job"]} for e in t["ev"]]} for t in ts])
+            r = tlc.validate("SenderTcpTrace", "SPECIFICATION Spec\n", path, tag=tag)
+            if r.errors or r.rc != 0:
+                raise flow.MachineryError("SenderTcpTrace failed: %s\n%s" % (r.errors[:2], r.stdout[-1500:]))
+            counts, fails = {}, []
+            for t in r.tuples:
+                if t and t[0] == "D":
+                    for c, m in t[3].items():
+                        counts[c] = counts.get(c, 0) + m
+                elif t and t[0] == "F":
+                    fails.append((t[1] - 1, t[2], t[3]))
+            return counts, fails
+        counts, fails = judge(trs, "tcp")
+        # planted corruptions: a framed line on the wire, two job lines swapped, a line sent before the previous ok
+        base = next((t for t in trs if len([e for e in t["ev"] if e["k"] == "tx"]) >= 5 and not t["meta"]["pauses"]), None)
+        ctl = 0
+        if base is not None:
+            c1, c2, c3 = _c.deepcopy(base), _c.deepcopy(base), _c.deepcopy(base)
+            tx = [i for i, e in enumerate(base["ev"]) if e["k"] == "tx"]
+            c1["ev"][tx[1]]["text"] = list(b"N0 " + bytes(c1["ev"][tx[1]]["text"]).rstrip(b"\n") + b"*1\n")
+            c2["ev"][tx[1]]["text"], c2["ev"][tx[2]]["text"] = c2["ev"][tx[2]]["text"], c2["ev"][tx[1]]["text"]
+            rel = [i for i, e in enumerate(c3["ev"]) if e["k"] == "rel" and i > tx[1]][0]
+            c3["ev"].insert(tx[1], c3["ev"].pop(tx[2]))
+            _, cf = judge([c1, c2, c3], "tcpctl")
+            got = {(i, c) for i, _, c in cf}
+            want = {(0, "TCP_Plain"), (1, "TCP_Order"), (2, "TCP_Paced")}
+            if base["ev"][tx[1]]["text"] != base["ev"][tx[2]]["text"] and not want <= got:
+                raise flow.MachineryError("SenderTcpTrace missed planted corruptions: %s" % sorted(want - got))
+            ctl = 3
+        if fails:
+            i, step, clause = fails[0]
+            flow.say("NOTE TCP streaming (beyond the listed properties): %d clause failures, first: %s at step %d of job %s"
+                     % (len(fails), clause, step, json.dumps(trs[i]["raw"])[:200]))
+        return {"tcp_streaming": {"executions": len(trs), "clause_checks": counts, "failures": len(fails),
+                                  "first_failures": [[i, st, c] for i, st, c in fails[:5]], "planted_corruptions_detected": ctl}}
 
     def layer_table(self):
         """Beyond C15: the (layer, line) table through which printcore fetches the line to send (GcoderLayers)."""
